@@ -1723,6 +1723,9 @@ class OR(LogicalOperator, ABC):
         if child is self.left:
             if when_false or (when_false is None):
                 required_vars.update(self.right._unique_variables_)
+                # the right branch may fire for a row the left one rejects: what it (or a branch below it) concludes needs its variables.
+                for conc in [*self.right._conclusion_, *self.right._conclusions_of_all_descendants_]:
+                    required_vars.update(conc._unique_variables_)
                 when_iam = None
             else:
                 when_iam = True
